@@ -16,3 +16,11 @@ async def device():
     if len(dev.conns) > 400:        # called at the start of a case: forget connections that ended long ago
         dev.conns = [c for c in dev.conns if not c.client_eof]
     return dev
+
+
+async def restart_on_new_loop_prepare():
+    """Before net.new_loop(): take the shared fake device down (its servers live on the old loop)."""
+    ent = _ENV.pop("dev", None)
+    if ent is not None and ent[0] == os.getpid():
+        await ent[1].kill_connections()
+        await ent[1].stop()
